@@ -674,6 +674,11 @@ pub struct SqlCase {
     /// the WHERE clause then speaks about the derived column, whose values are not the stored ones
     #[serde(default)]
     pub shape: u8,
+    /// bit i set = the i-th comparison leaf, if it compares the integer column with a decimal literal,
+    /// is written `CAST(<literal> AS BIGINT)`: the statement then compares with the value of the
+    /// cast (the literal truncated towards zero), not with the literal
+    #[serde(default)]
+    pub cast: u32,
 }
 
 fn sql_lit(kind: Kind, l: &Lit) -> Option<String> {
@@ -696,11 +701,69 @@ fn sql_lit(kind: Kind, l: &Lit) -> Option<String> {
     })
 }
 
-fn p_sql(p: &P, rev: u32, leaf: &mut u32) -> Option<String> {
+/// the integer a cast-wrapped decimal literal against the integer column stands for (as an index of
+/// the integer domain), if the leaf is eligible
+fn cast_target(c: &u8, l: &Lit) -> Option<i8> {
+    if SQLKINDS[*c as usize % NCOLS] != Kind::Int {
+        return None;
+    }
+    match l {
+        Lit::Cross(d) => {
+            let f = float_of(*d);
+            if f.is_finite() && f.abs() <= 80.0 {
+                Some(f.trunc() as i8)
+            } else {
+                None
+            }
+        }
+        _ => None,
+    }
+}
+
+/// the tree the statement means once the casts selected by `cast` are evaluated (same leaf numbering as p_sql)
+fn apply_casts(p: &P, cast: u32, leaf: &mut u32) -> P {
+    let mut one = |c: &u8, l: &Lit| -> Lit {
+        let on = cast & (1 << (*leaf % 32)) != 0;
+        *leaf += 1;
+        match (on, cast_target(c, l)) {
+            (true, Some(v)) => Lit::Own(v),
+            _ => l.clone(),
+        }
+    };
+    match p {
+        P::Eq(c, l) => P::Eq(*c, one(c, l)),
+        P::NotEq(c, l) => P::NotEq(*c, one(c, l)),
+        P::Lt(c, l) => P::Lt(*c, one(c, l)),
+        P::LtEq(c, l) => P::LtEq(*c, one(c, l)),
+        P::Gt(c, l) => P::Gt(*c, one(c, l)),
+        P::GtEq(c, l) => P::GtEq(*c, one(c, l)),
+        P::And(a, b) => {
+            let a2 = apply_casts(a, cast, leaf);
+            P::And(Box::new(a2), Box::new(apply_casts(b, cast, leaf)))
+        }
+        P::Or(a, b) => {
+            let a2 = apply_casts(a, cast, leaf);
+            P::Or(Box::new(a2), Box::new(apply_casts(b, cast, leaf)))
+        }
+        P::Not(a) => {
+            if let P::Between(..) = a.as_ref() {
+                *leaf += 1;
+                return p.clone();
+            }
+            P::Not(Box::new(apply_casts(a, cast, leaf)))
+        }
+        other => other.clone(),
+    }
+}
+
+fn p_sql(p: &P, rev: u32, cast: u32, leaf: &mut u32) -> Option<String> {
     let col = |c: &u8| SQLCOLS[*c as usize % NCOLS];
     let kind = |c: &u8| SQLKINDS[*c as usize % NCOLS];
     let mut cmp = |c: &u8, l: &Lit, op: &str, swapped: &str| -> Option<String> {
-        let lit = sql_lit(kind(c), l)?;
+        let mut lit = sql_lit(kind(c), l)?;
+        if cast & (1 << (*leaf % 32)) != 0 && cast_target(c, l).is_some() {
+            lit = format!("CAST({} AS BIGINT)", lit);
+        }
         let r = rev & (1 << (*leaf % 32)) != 0;
         *leaf += 1;
         Some(if r { format!("{} {} {}", lit, swapped, col(c)) } else { format!("{} {} {}", col(c), op, lit) })
@@ -715,8 +778,8 @@ fn p_sql(p: &P, rev: u32, leaf: &mut u32) -> Option<String> {
         P::In(c, ls) => format!("{} IN ({})", col(c), ls.iter().map(|l| sql_lit(kind(c), l)).collect::<Option<Vec<_>>>()?.join(", ")),
         P::NotIn(c, ls) => format!("{} NOT IN ({})", col(c), ls.iter().map(|l| sql_lit(kind(c), l)).collect::<Option<Vec<_>>>()?.join(", ")),
         P::Between(c, a, b) => format!("{} BETWEEN {} AND {}", col(c), sql_lit(kind(c), a)?, sql_lit(kind(c), b)?),
-        P::And(a, b) => format!("({} AND {})", p_sql(a, rev, leaf)?, p_sql(b, rev, leaf)?),
-        P::Or(a, b) => format!("({} OR {})", p_sql(a, rev, leaf)?, p_sql(b, rev, leaf)?),
+        P::And(a, b) => format!("({} AND {})", p_sql(a, rev, cast, leaf)?, p_sql(b, rev, cast, leaf)?),
+        P::Or(a, b) => format!("({} OR {})", p_sql(a, rev, cast, leaf)?, p_sql(b, rev, cast, leaf)?),
         P::Not(a) => {
             // the two spellings of a negated BETWEEN
             if let P::Between(c, lo, hi) = a.as_ref() {
@@ -726,7 +789,7 @@ fn p_sql(p: &P, rev: u32, leaf: &mut u32) -> Option<String> {
                     return Some(format!("{} NOT BETWEEN {} AND {}", SQLCOLS[*c as usize % NCOLS], sql_lit(SQLKINDS[*c as usize % NCOLS], lo)?, sql_lit(SQLKINDS[*c as usize % NCOLS], hi)?));
                 }
             }
-            format!("(NOT {})", p_sql(a, rev, leaf)?)
+            format!("(NOT {})", p_sql(a, rev, cast, leaf)?)
         }
     })
 }
@@ -742,7 +805,7 @@ pub fn exec_sql(sc: &SqlCase) -> Outcome {
     let cols: Vec<Col> = sc.case.cols.iter().enumerate().map(|(i, c)| Col { kind: SQLKINDS[i], rows: c.rows.clone(), stats: c.stats.clone() }).collect();
     let case = Case { cols: cols.clone(), pred: sc.case.pred.clone() };
     let mut leaf = 0u32;
-    let wher = match p_sql(&case.pred, sc.rev, &mut leaf) {
+    let wher = match p_sql(&case.pred, sc.rev, sc.cast, &mut leaf) {
         Some(w) => w,
         None => {
             out.class("not-expressible-in-sql");
@@ -753,12 +816,20 @@ pub fn exec_sql(sc: &SqlCase) -> Outcome {
     let negatable = cols[0].rows.iter().all(|r| r.map(|d| (-104..=104).contains(&d)).unwrap_or(true));
     let shape = if sc.shape % 3 == 2 && !negatable { 0 } else { sc.shape % 3 };
     // what the WHERE clause is true of: the stored rows, or (shape 2) rows whose value_i64 is negated
+    let meant = {
+        let mut n = 0u32;
+        apply_casts(&case.pred, sc.cast, &mut n)
+    };
+    if format!("{:?}", meant) != format!("{:?}", case.pred) {
+        out.class("literal-wrapped-in-a-value-changing-cast");
+    }
+    let case_meant = Case { cols: case.cols.clone(), pred: meant };
     let truth = if shape == 2 {
-        let mut t = case.clone();
+        let mut t = case_meant.clone();
         t.cols[0].rows = t.cols[0].rows.iter().map(|r| r.map(|d| -d)).collect();
         t
     } else {
-        case.clone()
+        case_meant.clone()
     };
     // no timestamp term: the extraction gives up on a conjunction that contains one
     let sql = match shape {
@@ -927,7 +998,7 @@ pub fn def() -> PropDef {
                 Box::new(Sub::<Case> { name: "box", cases: |t| t.scale(500_000, 10), strategy: case_strategy, exec: exec_box }),
                 Box::new(Sub::<Case> { name: "endpoint-leaf", cases: |t| t.scale(200_000, 10), strategy: endpoint_strategy, exec: exec_box }),
                 Box::new(Sub::<CatCase> { name: "catalog", cases: |t| t.scale(20_000, 10), strategy: cat_strategy, exec: exec_catalog }),
-                Box::new(Sub::<SqlCase> { name: "sql-extraction", cases: |t| t.scale(60_000, 10), strategy: |t| (prop_oneof![1 => case_strategy(t), 1 => endpoint_strategy(t)], prop_oneof![1 => Just(0u32), 2 => any::<u32>()], prop_oneof![3 => Just(0u8), 1 => Just(1u8), 2 => Just(2u8)]).prop_map(|(case, rev, shape)| SqlCase { case, rev, shape }).boxed(), exec: exec_sql }),
+                Box::new(Sub::<SqlCase> { name: "sql-extraction", cases: |t| t.scale(60_000, 10), strategy: |t| (prop_oneof![1 => case_strategy(t), 1 => endpoint_strategy(t)], prop_oneof![1 => Just(0u32), 2 => any::<u32>()], prop_oneof![3 => Just(0u8), 1 => Just(1u8), 2 => Just(2u8)], prop_oneof![2 => Just(0u32), 1 => any::<u32>()]).prop_map(|(case, rev, shape, cast)| SqlCase { case, rev, shape, cast }).boxed(), exec: exec_sql }),
             ]
         },
     }
